@@ -49,7 +49,7 @@ def isIRI : T → Prop
   | _ => False
 
 /-- A literal carries a language tag only with datatype rdf:langString, and then a non-empty one.
-    (The converse fails for the explicit `"x"^^rdf:langString`, finding D31.) -/
+    (The converse fails for the explicit `"x"^^rdf:langString`, finding D41.) -/
 def litShape : T → Prop
   | .lit _ dt (some tag) => dt = rdfLangString ∧ tag ≠ []
   | _ => True
